@@ -6,21 +6,32 @@ def _memo(E, key, n, prefix):
     memo = E.__dict__.setdefault('stub_memo', {})
     if key not in memo: memo[key] = [z3.Real('%s%d_%d' % (prefix, len(memo), k)) for k in range(n)]
     return memo[key]
+def _ids(E, xs):
+    # z3 AST ids are unique only among live nodes: keep every key term alive
+    keep = E.__dict__.setdefault('stub_keep', []); keep.extend(x for x in xs if hasattr(x, 'get_id'))
+    return tuple(x.get_id() if hasattr(x, 'get_id') else x for x in xs)
 def hook_riemann(E, nm, av):
     """Riemann solver = memoised nondeterministic function of its inputs (its correctness is C05): same inputs -> same flux"""
     import ir
     this, rhoL, uL, PL, rhoR, uR, PR, mflux, pflux, Eflux, normal, vface = av
     ld = lambda p, k: E.load((p[0], p[1] + 8 * k), ir.DblT())
-    key = tuple(x.get_id() if hasattr(x, 'get_id') else x for x in [rhoL, PL, rhoR, PR] + [ld(uL, k) for k in range(3)] + [ld(uR, k) for k in range(3)] + [ld(normal, k) for k in range(3)])
+    key = _ids(E, [rhoL, PL, rhoR, PR] + [ld(uL, k) for k in range(3)] + [ld(uR, k) for k in range(3)] + [ld(normal, k) for k in range(3)])
     out = _memo(E, key, 5, 'F')
     E.store(mflux, ir.DblT(), out[0]); E.store(Eflux, ir.DblT(), out[4])
     for k in range(3): E.store((pflux[0], pflux[1] + 8 * k), ir.DblT(), out[1 + k])
     return None
 def hook_limit(E, nm, av):
     """slope limiter = memoised function of its four arguments (its internals are not part of the conservation clause)"""
-    key = tuple(x.get_id() if hasattr(x, 'get_id') else x for x in av)
+    key = _ids(E, av)
     return _memo(E, key, 1, 'L')[0]
-STUBS = {'~HLLCRiemannSolver14solve_for_flux': hook_riemann, '~Hydro5limitE': hook_limit}
+def _minmax(which):
+    def f(E, nm, av):
+        """std::min/std::max<double> (out of line under -fno-inline) as a value select instead of a branch: same value, no path split"""
+        import ir
+        a = E.load(av[0], ir.DblT()); b = E.load(av[1], ir.DblT())
+        p = E.alloc(8); E.store(p, ir.DblT(), E.fp.fmax(a, b) if which == 'max' else E.fp.fmin(a, b)); return p
+    return f
+STUBS = {'~HLLCRiemannSolver14solve_for_flux': hook_riemann, '~Hydro5limitE': hook_limit, '~_ZSt3maxIdERKT_S2_S2_': _minmax('max'), '~_ZSt3minIdERKT_S2_S2_': _minmax('min')}
 
 FLUX = '@_ZNK5Hydro19do_flux_calculationEhR14HydroVariablesS1_ddd'
 GRAD = '@_ZNK5Hydro23do_gradient_calculationEiR14HydroVariablesS1_dPdS2_'
@@ -28,7 +39,7 @@ GRAD = '@_ZNK5Hydro23do_gradient_calculationEiR14HydroVariablesS1_dPdS2_'
 def b_harnesses(tier):
     H = []
     for d in ((0,) if tier == 'quick' else (0, 1, 2)):
-        H.append(BHarness('F1_flux_application_dir%d' % d, 'c04_hydro.cpp', 'h_f1_flux_application', defs=['DIR=%d' % d, 'NMAXC=2'], noinline=True, stubs=STUBS, strict=True, cflags=['-fopenmp'], timeout=1400, maxpaths=40000, split=12, native_replay=False,
+        H.append(BHarness('F1_flux_application_dir%d' % d, 'c04_hydro.cpp', 'h_f1_flux_application', defs=['DIR=%d' % d, 'NMAXC=2'], noinline=True, stubs=STUBS, strict=True, cflags=['-fopenmp'], timeout=1400, maxpaths=40000, split=4, native_replay=True,
             what='Hydro::do_flux_calculation: the change applied to the right cell is minus the change applied to the left cell (bit for bit, 5 components, flux limiter active or not), and with arbitrary pending changes the same amount X is subtracted left and added right; one common limiter factor scales mass, momentum and energy flux',
             bound='direction %d; both states, gradients, dx, A, dt, gamma in (1,2] symbolic; Riemann solver and slope limiter = memoised nondeterministic functions; all limiter branches explored' % d))
     return H
